@@ -39,6 +39,7 @@ impl FecEncoder for RaptorEncoder {
 
 pub struct RaptorDecoder {
     source_block_size: usize,
+    nb_source_symbols: usize,
     decoder: raptor_code::SourceBlockDecoder,
     data: Option<Vec<u8>>,
 }
@@ -53,8 +54,30 @@ impl RaptorDecoder {
         RaptorDecoder {
             decoder: raptor_code::SourceBlockDecoder::new(nb_source_symbols),
             source_block_size,
+            nb_source_symbols,
             data: None,
         }
+    }
+}
+
+impl RaptorDecoder {
+    /// Size of the encoding symbol `esi`: the source block is cut in `nb_source_symbols`
+    /// semi-equal source symbols, the repair symbols have the size of the longest one
+    fn encoding_symbol_size(&self, esi: u32) -> usize {
+        if self.nb_source_symbols == 0 {
+            return 0;
+        }
+        let small_size = self.source_block_size / self.nb_source_symbols;
+        let nb_long = self.source_block_size - (small_size * self.nb_source_symbols);
+        if nb_long == 0 {
+            return small_size;
+        }
+
+        let long_size = small_size + 1;
+        if (esi as usize) < nb_long || (esi as usize) >= self.nb_source_symbols {
+            return long_size;
+        }
+        small_size
     }
 }
 
@@ -69,6 +92,16 @@ impl FecDecoder for RaptorDecoder {
             encoding_symbol.len(),
             self.source_block_size
         );
+
+        if encoding_symbol.len() != self.encoding_symbol_size(esi) {
+            log::error!(
+                "Encoding symbol {} of {} bytes instead of {}, skip it",
+                esi,
+                encoding_symbol.len(),
+                self.encoding_symbol_size(esi)
+            );
+            return;
+        }
 
         self.decoder.push_encoding_symbol(encoding_symbol, esi)
     }
